@@ -7,6 +7,7 @@ mod eng_store;
 mod eng_fringe;
 mod fam;
 mod eng_mdd;
+mod eng_seq;
 
 pub struct Args {
     pub engine: String,
@@ -41,6 +42,8 @@ fn main() {
         "dom" => eng_store::run_dom(&a),
         "fringe" => eng_fringe::run_fringe(&a),
         "mdd" => eng_mdd::run_mdd(&a),
+        "seq" => eng_seq::run_seq(&a),
+        "seqcut" => eng_seq::run_seqcut(&a),
         e => { eprintln!("unknown engine {}", e); std::process::exit(2); }
     }
 }
